@@ -62,6 +62,8 @@ type failure struct {
 	race       string // race report text
 	crash      string
 	replayPath string // set when the failing history is already on disk (no plan to minimise)
+	procFrom   uint64 // first run index and stride of the worker process that executed the run
+	stride     uint64
 }
 
 type jobResult struct {
@@ -307,7 +309,7 @@ func runWorker(cfg *config, job *Job, from, to, stride uint64, deadline time.Tim
 				jr.stats[k] += v
 			}
 			for _, v := range res.Violations {
-				jr.failures = append(jr.failures, failure{job: job, run: res.Run, viol: v, plan: plans[res.Run]})
+				jr.failures = append(jr.failures, failure{job: job, run: res.Run, viol: v, plan: plans[res.Run], procFrom: from, stride: stride})
 			}
 			enough := len(jr.failures) >= maxFailuresPerJob
 			mu.Unlock()
@@ -392,14 +394,14 @@ func runWorker(cfg *config, job *Job, from, to, stride uint64, deadline time.Tim
 			jr.infra = append(jr.infra, fmt.Sprintf("race report without a frame of the code under test (harness bug) in run %d:\n%s", inflight, trim(text, 3000)))
 			return 0, true
 		}
-		jr.failures = append(jr.failures, failure{job: job, run: uint64(inflight), viol: v, race: text})
+		jr.failures = append(jr.failures, failure{job: job, run: uint64(inflight), viol: v, race: text, procFrom: from, stride: stride})
 		jr.runs++
 		if tooMany {
 			return 0, true
 		}
 		return uint64(inflight) + stride, false
 	case inflight >= 0 && (strings.Contains(text, "fatal error: concurrent map") || strings.Contains(text, "fatal error: sync:")):
-		jr.failures = append(jr.failures, failure{job: job, run: uint64(inflight), crash: text,
+		jr.failures = append(jr.failures, failure{job: job, run: uint64(inflight), crash: text, procFrom: from, stride: stride,
 			viol: plan.Violation{Property: cfg.prop, Class: cfg.prop + "/fatal", Key: firstLine(text), Detail: trim(text, 2000)}})
 		jr.runs++
 		return uint64(inflight) + stride, false
@@ -567,9 +569,20 @@ func explore(cfg *config) int {
 		infra = append(infra, inf...)
 		extra["cross_process_history_oracle"] = st
 	}
-	if true {
+	{
+		// On the unchanged tree the simulator is deterministic (proved on a large
+		// sample, tools/determinism.sh). A difference here therefore means that
+		// the tree under test has a source of nondeterminism the simulator does
+		// not own (map iteration order, sync.Map, goroutines of its own ...):
+		// verdicts stand, but replays may not reproduce on every execution. It is
+		// reported, and does not change the exit code.
 		st, inf := determinismSelfTest(cfg)
-		infra = append(infra, inf...)
+		for _, m := range inf {
+			fmt.Println("WARNING:", m)
+		}
+		if len(inf) > 0 {
+			fmt.Println("WARNING: the tree under test is not deterministic under the simulator; replay files of this run may need several executions to reproduce")
+		}
 		extra["determinism_selftest"] = st
 	}
 
@@ -707,10 +720,12 @@ func reportFailures(cfg *config, all []failure, known []knownFinding, exit *int,
 			if left > per {
 				left = per
 			}
-			minimised, v = minimise(cfg, f.job, p, f.viol, left)
+			minimised, v = minimise(cfg, f.job, p, f.viol, left, preludeOf(cfg, &f))
 		} else {
-			// out of minimisation budget: the unminimised plan is still an exact replay
+			// out of minimisation budget: the unminimised plan, with everything
+			// its worker process executed before it, is still an exact replay
 			minimised = p
+			minimised.Prelude = preludeOf(cfg, &f)
 		}
 		minimised.Class = v.Class
 		minimised.Detail = v.Detail
@@ -980,4 +995,16 @@ func replayHistory(cfg *config, path string) int {
 		fmt.Println("apdsim: history log gives the same outcomes in fresh processes")
 	}
 	return exit
+}
+
+// preludeOf lists the runs the worker process executed before the failing one.
+func preludeOf(cfg *config, f *failure) []plan.Ref {
+	var out []plan.Ref
+	if f.stride == 0 {
+		return nil
+	}
+	for r := f.procFrom; r < f.run; r += f.stride {
+		out = append(out, plan.Ref{Workload: f.job.WL, Mode: f.job.Mode, Seed: f.job.Seed, Run: r, Tier: cfg.tier})
+	}
+	return out
 }
